@@ -3,10 +3,13 @@
    Every statement holds for ALL environments e (existing / available frameworks), ALL universes u of feature-group
    classes (any size, any inheritance relation `supers`, any match sets, domains, framework rules, index columns) and ALL
    requests rq (API framework list, collector, feature name / domain / framework, links).  Python set/dict iteration
-   order = list order; `next(iter(set))` = the parameter `choice`. *)
+   order = list order; `next(iter(set))` = the parameter `choice`.
+   A compute framework is a class OBJECT (identity, `fw`) with a class NAME (`cname e x`); names need not be unique among the
+   existing classes (same-named twins).  An entry of the API list is a string (AName: selects by name) or a class object
+   (AClass: selects by identity); everything else compares class objects. *)
 From Coq Require Import List Bool String Arith Permutation.
 Import ListNotations.
-Require Import MV.Model.Resolve MV.Spec.ResolveRule MV.Proofs.ResolveP.
+Require Import MV.Model.Resolve MV.Spec.ResolveRule MV.Proofs.ResolveP MV.Proofs.ResolveNamesP.
 Require Import MV.Model.ResolveHist MV.Spec.ResolveHistRule MV.Proofs.ResolveHistP.
 Open Scope string_scope.
 Open Scope list_scope.
@@ -124,7 +127,7 @@ Print Assumptions C10_doc_engine_differ_refuted.
 (* ---- non-vacuity: frameworks 0 = PyArrowTable, 1 = PandasDataFrame, 2 = PythonDictFramework, 3 = exists but is not
    available.  Chain A(0) <- B(1) <- C(2), all matching "f", plus D(3) matching "f" in another domain and E(4) = a copy of
    the situation with an explicit rule. ---- *)
-Definition ex_e := {| existing := [0; 1; 2; 3]; available := [0; 1; 2] |}.
+Definition ex_e := {| existing := [0; 1; 2; 3]; available := [0; 1; 2]; cname := fun x => x |}.
 Definition ex_cls i sup acc d r := {| cid := i; supers := sup; accepts := acc; dom := d; rule := r; idxcols := None |}.
 Definition ex_u := [ex_cls 0 [] ["f"; "g"] "default_domain" None; ex_cls 1 [0] ["f"] "default_domain" None;
                     ex_cls 2 [1; 0] ["f"] "default_domain" None; ex_cls 3 [] ["f"; "g"] "dA" (Some [1; 3])].
@@ -142,19 +145,123 @@ Example C10_examples :
   (* collector disabling the leaf: the middle class is chosen *)
   resolve ex_e ex_u (ex_rq [] (Some ([], [2])) (Some "default_domain") None) = Chosen 1 [0; 1; 2] /\
   (* API list restricted to Pandas: D and the chain now have the same set but are unrelated -> rejected *)
-  resolve ex_e ex_u (ex_rq [1] None None None) = Rejected EMultiple /\
+  resolve ex_e ex_u (ex_rq [AName 1] None None None) = Rejected EMultiple /\
   (* request-level rejections *)
-  resolve ex_e ex_u (ex_rq [7] None None None) = Rejected ENoApiFramework /\
-  resolve ex_e ex_u (ex_rq [0] None None (Some 1)) = Rejected EFeatureFwNotInApi /\
+  resolve ex_e ex_u (ex_rq [AName 7] None None None) = Rejected ENoApiFramework /\
+  resolve ex_e ex_u (ex_rq [AClass 0] None None (Some 1)) = Rejected EFeatureFwNotInApi /\
   resolve ex_e ex_u (ex_rq [] (Some ([2], [2])) None None) = Rejected ENoAccessible /\
   (* the hypotheses of the spec theorems hold here, and the order of the universe is irrelevant *)
   precheck ex_e ex_u (ex_rq [] None (Some "default_domain") None) = None /\
   kf_fw_mismatch_b ex_e ex_u (ex_rq [] None (Some "default_domain") None) = false /\
   resolve ex_e (rev ex_u) (ex_rq [] None (Some "default_domain") None) = Chosen 2 [0; 1; 2] /\
   (* restricting the API list turns the refutation witness into a unique choice *)
-  resolve wit_e wit_u {| api := [0]; collector := None; fname := "f"; fdom := None; ffw := None; links := None |}
+  resolve wit_e wit_u {| api := [AClass 0]; collector := None; fname := "f"; fdom := None; ffw := None; links := None |}
     = Chosen 1 [0].
 Proof. split; [repeat constructor; cbn; intuition discriminate | vm_compute; repeat split]. Qed.
+
+(* =====================================================================================================================
+   IDENTITY vs. NAME of compute frameworks (Proofs/ResolveNamesP.v).  All statements hold for every environment, in
+   particular for environments in which several existing classes carry the same class name.
+   ===================================================================================================================== *)
+
+(* what the API argument selects (SetupComputeFramework.filter_user_set_in_available_sub_classes), in one line: the existing
+   classes some entry admits BY THE ENTRY'S KIND - a string by name, a class object by identity *)
+Theorem C10_api_set_char : forall e rq s, In s (api_set e rq) <-> In s (existing e) /\ api_allows e rq s.
+Proof. exact api_set_char_l. Qed.
+Print Assumptions C10_api_set_char.
+
+(* ---- a class OBJECT in the API list selects exactly that class - never a same-named twin ---- *)
+Theorem C10_api_class_entry_selects_exactly_that_class : forall e rq, api rq <> [] ->
+  (forall a, In a (api rq) -> exists x, a = AClass x) ->
+  forall s, In s (api_set e rq) <-> In (AClass s) (api rq) /\ In s (existing e).
+Proof. exact api_class_entries_l. Qed.
+Print Assumptions C10_api_class_entry_selects_exactly_that_class.
+
+Theorem C10_api_single_class_entry : forall e rq x, api rq = [AClass x] ->
+  forall s, In s (api_set e rq) <-> s = x /\ In x (existing e).
+Proof. exact api_class_entry_l. Qed.
+Print Assumptions C10_api_single_class_entry.
+
+Theorem C10_api_class_entry_excludes_twin : forall e rq x y, api rq = [AClass x] -> y <> x -> ~ In y (api_set e rq).
+Proof. exact api_class_entry_excludes_twin_l. Qed.
+Print Assumptions C10_api_class_entry_excludes_twin.
+
+(* ---- a STRING in the API list selects every existing class of that name ---- *)
+Theorem C10_api_name_entry_selects_all_of_that_name : forall e rq n, api rq = [AName n] ->
+  forall s, In s (api_set e rq) <-> In s (existing e) /\ cname e s = n.
+Proof. exact api_name_entry_l. Qed.
+Print Assumptions C10_api_name_entry_selects_all_of_that_name.
+
+(* ---- admissibility stated with identities, without the Spec vocabulary: every framework in the feature's set after
+        resolution is a class object that (1) the API list is empty or one of its entries admits BY ITS KIND, (2) exists and
+        is available, (3) is in the rule set of the chosen group (or the rule is True), (4) is the feature's own class ---- *)
+Theorem C10_framework_admissible_by_identity : forall e u rq n gf, resolve e u rq = Chosen n gf ->
+  forall x, In x (feature_fws rq gf) ->
+    (api rq = [] \/ exists a, In a (api rq) /\ match a with AName m => cname e x = m | AClass y => x = y end) /\
+    In x (existing e) /\ In x (available e) /\
+    (exists c, In c u /\ cid c = n /\ match rule c with None => True | Some s => In x s end) /\
+    match ffw rq with None => True | Some y => x = y end.
+Proof. exact framework_admissible_identity_l. Qed.
+Print Assumptions C10_framework_admissible_by_identity.
+
+(* ---- the theorems separate implementations: selecting class entries BY NAME ("normalise the request to names", Model:
+        names_only; NOT the implementation) admits the twin: twins 0 and 1 carry name 7, the API list is {class 0}.
+        GB (rule {1}) must be rejected and is computed on 1; XA/XB (rules {0}/{1}) have one admissible group and become
+        ambiguous; the any-rule group T gets {0, 1}.  Framework 1 is not admitted by the API list. ---- *)
+Example C10_class_entries_by_name_admit_twin_refuted :
+  resolve tw_e tw_u (tw_rq [AClass 0] "a") = Chosen 0 [0] /\
+  resolve tw_e tw_u (tw_rq [AClass 0] "b") = Rejected ENoGroup /\
+  resolve tw_e tw_u (tw_rq [AClass 0] "x") = Chosen 2 [0] /\
+  resolve tw_e tw_u (tw_rq [AClass 0] "t") = Chosen 4 [0] /\
+  resolve tw_e tw_u (names_only tw_e (tw_rq [AClass 0] "b")) = Chosen 1 [1] /\
+  resolve tw_e tw_u (names_only tw_e (tw_rq [AClass 0] "x")) = Rejected EMultiple /\
+  resolve tw_e tw_u (names_only tw_e (tw_rq [AClass 0] "t")) = Chosen 4 [0; 1] /\
+  ~ api_allows tw_e (tw_rq [AClass 0] "b") 1 /\
+  In 1 (api_set tw_e (names_only tw_e (tw_rq [AClass 0] "b"))) /\
+  resolve tw_e tw_u (tw_rq [AName 7] "t") = Chosen 4 [0; 1] /\
+  resolve tw_e tw_u (tw_rq [AName 7] "b") = Chosen 1 [1].
+Proof. exact names_only_refuted_l. Qed.
+Print Assumptions C10_class_entries_by_name_admit_twin_refuted.
+
+(* ---- Feature(name, compute_framework="N") / options["compute_framework"]: the class put into feature.compute_frameworks
+        carries that name and exists; there is none exactly when the request is rejected with "not found" ---- *)
+Theorem C10_feature_framework_name_sound : forall e u rq n0 g gf, resolve_named e u rq (Some n0) = Chosen g gf ->
+  exists x, feature_fw_of_name e n0 = Some x /\ cname e x = n0 /\ In x (existing e) /\
+            resolve e u (with_ffw rq (Some x)) = Chosen g gf /\ feature_fws (with_ffw rq (Some x)) gf = [x].
+Proof. exact resolve_named_chosen_l. Qed.
+Print Assumptions C10_feature_framework_name_sound.
+
+Theorem C10_feature_framework_name_unknown : forall e u rq n0,
+  (forall x, In x (existing e) -> cname e x <> n0) -> resolve_named e u rq (Some n0) = Rejected EFwUnknown.
+Proof. exact resolve_named_unknown_l. Qed.
+Print Assumptions C10_feature_framework_name_unknown.
+
+(* ---- ... and the answer does not depend on class definition order / hashing.
+   FULL STATEMENT (refuted on the faithful model, see C10_feature_framework_name_order_refuted):
+     forall e e' u u' rq fn, Permutation u u' -> Permutation (existing e) (existing e') ->
+       Permutation (available e) (available e') -> (forall x, cname e x = cname e' x) ->
+       result_equiv (resolve_named e u rq fn) (resolve_named e' u' rq fn).
+   PROVED outside kf_ffw_name_twins (the feature names a framework NAME that at least two existing classes carry; decidable
+   by definition): FeatureValidator.validate_and_resolve_compute_framework returns the FIRST class of that name in the
+   iteration order of a set of class objects. ---- *)
+Theorem C10_feature_framework_name_order_partial : forall e e' u u' rq fn, Permutation u u' ->
+  Permutation (existing e) (existing e') -> Permutation (available e) (available e') -> (forall x, cname e x = cname e' x) ->
+  kf_ffw_name_twins e fn = false -> result_equiv (resolve_named e u rq fn) (resolve_named e' u' rq fn).
+Proof. intros e e' u u' rq fn Hu H1 H2 H3 K. apply resolve_named_order_l; [exact Hu | split; [|split]; assumption | exact K]. Qed.
+Print Assumptions C10_feature_framework_name_order_partial.
+
+Theorem C10_feature_framework_name_order_refuted :
+  Permutation (existing tw_e) (existing tw_e') /\ kf_ffw_name_twins tw_e (Some 7) = true /\
+  feature_fw_of_name tw_e 7 = Some 0 /\ feature_fw_of_name tw_e' 7 = Some 1 /\
+  resolve_named tw_e tw_u (tw_rq [] "a") (Some 7) = Chosen 0 [0] /\
+  resolve_named tw_e' tw_u (tw_rq [] "a") (Some 7) = Rejected ENoGroup /\
+  resolve_named tw_e tw_u (tw_rq [] "x") (Some 7) = Chosen 2 [0] /\
+  resolve_named tw_e' tw_u (tw_rq [] "x") (Some 7) = Chosen 3 [1] /\
+  kf_ffw_name_twins tw_e (Some 8) = false /\
+  resolve_named tw_e tw_u (tw_rq [] "t") (Some 8) = Chosen 4 [0; 1; 2] /\
+  resolve_named tw_e' tw_u (tw_rq [] "t") (Some 8) = Chosen 4 [1; 0; 2].
+Proof. exact ffw_name_twins_refuted_l. Qed.
+Print Assumptions C10_feature_framework_name_order_refuted.
 
 (* =====================================================================================================================
    SEVERAL FEATURES IN ONE REQUEST, AND CLASSES THAT COME INTO EXISTENCE BETWEEN THE REQUESTS OF ONE PROCESS
@@ -165,9 +272,9 @@ Proof. split; [repeat constructor; cbn; intuition discriminate | vm_compute; rep
 
 (* ---- the order in which a subclass walk yields the compute frameworks cannot matter (frameworks as sets) ---- *)
 Theorem C10_resolve_env_order_invariant : forall e e' u u' rq, Permutation u u' ->
-  Permutation (existing e) (existing e') -> Permutation (available e) (available e') ->
+  Permutation (existing e) (existing e') -> Permutation (available e) (available e') -> (forall x, cname e x = cname e' x) ->
   result_equiv (resolve e u rq) (resolve e' u' rq).
-Proof. intros e e' u u' rq Hu H1 H2. apply resolve_perm_equiv_l; [exact Hu | split; assumption]. Qed.
+Proof. intros e e' u u' rq Hu H1 H2 H3. apply resolve_perm_equiv_l; [exact Hu | split; [|split]; assumption]. Qed.
 Print Assumptions C10_resolve_env_order_invariant.
 
 (* ... nor the order of the API framework list, of the collector's sets, of the links *)
@@ -265,43 +372,43 @@ Print Assumptions C10_features_check_refuted.
 
 (* ---- whole requests: class definition order / hash order of feature groups and of compute frameworks ---- *)
 Theorem C10_request_outcome_order_invariant : forall e e' u u' mrq, Permutation u u' ->
-  Permutation (existing e) (existing e') -> Permutation (available e) (available e') ->
+  Permutation (existing e) (existing e') -> Permutation (available e) (available e') -> (forall x, cname e x = cname e' x) ->
   routcome_equiv (request_outcome e u mrq) (request_outcome e' u' mrq).
-Proof. intros e e' u u' mrq Hu H1 H2. apply request_outcome_equiv; [exact Hu | split; assumption]. Qed.
+Proof. intros e e' u u' mrq Hu H1 H2 H3. apply request_outcome_equiv; [exact Hu | split; [|split]; assumption]. Qed.
 Print Assumptions C10_request_outcome_order_invariant.
 
 (* ---- history_invariant: for every sequence of operations (class definitions and requests, any length) and whatever
         order each subclass walk of each request yields, the process state is exactly the classes defined so far (fold_left
         invariant) and every request is answered as the specification lists: by the rule applied to the classes that exist
         at that moment ---- *)
-Theorem C10_history_invariant : forall ws, (forall k, walk_ok (ws k)) -> forall st ops,
-  fst (run_history ws st ops) = final_state st ops /\
-  Forall2 routcome_equiv (snd (run_history ws st ops)) (spec_answers st ops).
+Theorem C10_history_invariant : forall nm ws, (forall k, walk_ok (ws k)) -> forall st ops,
+  fst (run_history nm ws st ops) = final_state st ops /\
+  Forall2 routcome_equiv (snd (run_history nm ws st ops)) (spec_answers nm st ops).
 Proof. exact history_invariant_l. Qed.
 Print Assumptions C10_history_invariant.
 
 (* ---- history_independent: two histories of the same process image that define the same classes (in any order, with any
         requests in between) answer a final request alike, and alike to the rule on the final class set: in particular
         like a fresh process in which the classes are defined first (h2 := defs h1) ---- *)
-Theorem C10_history_independent : forall ws ws', (forall k, walk_ok (ws k)) -> (forall k, walk_ok (ws' k)) ->
+Theorem C10_history_independent : forall nm ws ws', (forall k, walk_ok (ws k)) -> (forall k, walk_ok (ws' k)) ->
   forall st h1 h2 rq, Permutation (defs h1) (defs h2) ->
-  exists a1 a2, last (snd (run_history ws st (h1 ++ [Request rq]))) (RRejected RDuplicate) = a1 /\
-                last (snd (run_history ws' st (h2 ++ [Request rq]))) (RRejected RDuplicate) = a2 /\
+  exists a1 a2, last (snd (run_history nm ws st (h1 ++ [Request rq]))) (RRejected RDuplicate) = a1 /\
+                last (snd (run_history nm ws' st (h2 ++ [Request rq]))) (RRejected RDuplicate) = a2 /\
                 routcome_equiv a1 a2 /\
-                routcome_equiv a1 (request_outcome (env_of (p_fws (final_state st h1))) (p_groups (final_state st h1)) rq).
+                routcome_equiv a1 (request_outcome (env_of nm (p_fws (final_state st h1))) (p_groups (final_state st h1)) rq).
 Proof. exact history_independent_l. Qed.
 Print Assumptions C10_history_independent.
 
 (* the two history theorems separate implementations: a process that remembers the frameworks of open-rule groups until a
    DIRECT subclass of ComputeFramework appears (Model/ResolveHist.run_memo; NOT the implementation) violates them *)
 Theorem C10_history_memo_process_refuted :
-  spec_answers hm_st [Request (hm_rq [0]); DefFw hm_late; Request (hm_rq [5])]
+  spec_answers hm_nm hm_st [Request (hm_rq [AClass 0]); DefFw hm_late; Request (hm_rq [AClass 5])]
     = [RAnswered [((2, [0]), true)]; RAnswered [((2, [5]), true)]] /\
-  snd (run_history (fun _ => id_walk) hm_st [Request (hm_rq [0]); DefFw hm_late; Request (hm_rq [5])])
+  snd (run_history hm_nm (fun _ => id_walk) hm_st [Request (hm_rq [AClass 0]); DefFw hm_late; Request (hm_rq [AClass 5])])
     = [RAnswered [((2, [0]), true)]; RAnswered [((2, [5]), true)]] /\
-  run_memo hm_st [Request (hm_rq [0]); DefFw hm_late; Request (hm_rq [5])]
+  run_memo hm_nm hm_st [Request (hm_rq [AClass 0]); DefFw hm_late; Request (hm_rq [AClass 5])]
     = [RAnswered [((2, [0]), true)]; RRejected (RErr ENoGroup)] /\
-  run_memo hm_st [DefFw hm_late; Request (hm_rq [5])] = [RAnswered [((2, [5]), true)]].
+  run_memo hm_nm hm_st [DefFw hm_late; Request (hm_rq [AClass 5])] = [RAnswered [((2, [5]), true)]].
 Proof. exact memo_refuted_l. Qed.
 Print Assumptions C10_history_memo_process_refuted.
 
@@ -317,7 +424,7 @@ Definition ex_xc i cr := {| x_cid := i; x_supers := []; x_crit := cr; x_dom := "
 Definition ex_xu := [ex_xc 1 (CAnd (CNames ["r"]) (CCtx "unit" "c")); ex_xc 2 (CAnd (CNames ["r"]) (CCtx "unit" "k"));
                      ex_xc 3 (CAnd (CNames ["r"]) (CGroup "src" "p"))].
 Definition ex_f g c := {| f_name := "r"; f_group := g; f_ctx := c; f_dom := None; f_ffw := None; f_link := None |}.
-Definition ex_m fs := {| m_api := [0]; m_collector := None; m_links := None; m_feats := fs |}.
+Definition ex_m fs := {| m_api := [AName 0]; m_collector := None; m_links := None; m_feats := fs |}.
 Example C10_multi_examples :
   walk_ok id_walk /\
   (* both variants in one request: each by its own group, in either order *)
